@@ -43,6 +43,13 @@ STD_RULE = ("a generated corpus of built-in type expressions (every constructor:
             "Correspondence: model registry (Impls.typeInfo through the Registry model) = real registry; model encoding of the value = real bytes; tinfo: model type_info = real. "
             "Non-trivial: a type with at least one encoded value / a definition with references.")
 
+DERIVE_RULE = ("generated Rust declarations deriving TypeInfo and Encode (harness/gen/gen_derive.py): structs and enums with named / unnamed / unit shapes, 0-2 type parameters (used directly, in Vec/Option/tuple/Box/array, "
+               "in PhantomData, skipped via skip_type_params), optional lifetime (&'a str members shown as 'static), members of built-in types nested to depth 2, earlier declarations, self references behind Box/Vec/Option, "
+               "#[codec(skip)], #[codec(compact)], #[codec(index = n)], explicit discriminants, #[scale_info(rename)], capture_docs in three values and three spellings, 0-3 replace_segment rows (matching and not), "
+               "doc attributes with 0/1/2/3/5 leading spaces, empty and unicode lines, items nested 0-3 modules deep incl. raw module identifiers; each declaration instantiated 1-2 times, compiled against /repo "
+               "twice (docs feature off / on); per instantiation the real type_info() (references resolved against the program's type table), the real registry and up to 3 values with their real bytes. "
+               "Non-trivial: every case (each has at least a path); distinct = distinct case lines.")
+
 PROPS = {
     'C12': dict(
         streams=[
@@ -143,5 +150,23 @@ PROPS = {
         trusted_base=COMMON_TB + ["parity-scale-codec 3.7.5's Encode impls for std types are modelled by SIM.Value.encode + Spec.ValOf and tied by comparing bytes on every generated value",
                                   "the python generator harness/gen/texpr.py writes, for each Rust value expression, the Val it denotes (mirror of Spec.ValOf)"],
         assumptions=["values are generated, not enumerated: integer leaves hit 0, 1, 63/64, 2^14, 2^30 boundaries, extremes and random bits; collections have 0-3 elements; BinaryHeap values have at most one element (iteration order is internal)"],
+    ),
+    'C19': dict(
+        custom='c19',
+        streams=[],
+        n=dict(quick=400, thorough=6000),
+        rule="generated registries (arbitrary and well-formed, every definition kind incl. variants with no variants and composites with no fields, optional parts present and absent) serialised by the real serde impl in a harness built with scale-info's schema feature; each document is validated against the REAL generated schema by python jsonschema (reference) and by the Lean validator on the translated schema; 3 structural mutations per document (member removed/added/renamed, null, wrong-typed, arrays edited) compare the two validators. Non-trivial: non-empty registry / a mutated document the schema rejects.",
+        trusted_base=COMMON_TB + ["schemars 0.8 generates the schema (run, not modelled); the translator translators/schema_to_lean.py (rejects any keyword outside the modelled subset)",
+                                  "JSON-Schema draft-07 semantics as modelled in SIM.Model.Schema, cross-checked against python jsonschema on every generated and mutated document"],
+        assumptions=["format keywords (uint32, uint8) are annotations without validation meaning in draft-07"],
+    ),
+    'C09': dict(
+        translators=['extract_clean_pairs.py'],
+        streams=[dict(name='derive', pg=True, mode='derive', gen='gen_derive.py', quick=60, thorough=400, filter=only('C09:'), also_docs=True)],
+        rule=DERIVE_RULE,
+        trusted_base=COMMON_TB + ["rustc, the macro expander and proc_macro2's token printer are outside the model (the type name is compared up to whitespace, which is what clean_spaces + extracted_pairs_ok justify)",
+                                  "translators/extract_clean_pairs.py re-extracts the .replace chain of clean_type_string from /repo/derive/src/lib.rs on every run (fails on anything but a chain of literal pairs)",
+                                  "harness/gen/gen_derive.py writes each declaration both as Rust source and as the Decl the model reads"],
+        assumptions=["the supported grammar is the generator's (structs/enums; named/unnamed/unit; 0-2 type parameters, optional lifetime; nested modules incl. raw identifiers; codec skip/compact/index/encoded_as, explicit discriminants; scale_info rename/skip_type_params/capture_docs/replace_segment; doc attributes)"],
     ),
 }
